@@ -51,6 +51,15 @@ class Bench:
             el = next(e for e in js['elements'] if e['uid'] == f'fiber ({x} -> {y})')
             el.clear()
             el.update({'uid': f'fiber ({x} -> {y})', 'type': 'Fused', 'params': {'loss': 1}})
+        # the first link is asymmetric: its reverse direction holds a patch panel (one element more than the forward one)
+        a, b = self.sites[0], self.sites[1]
+        js['elements'] += [{'uid': f'patch ({b} -> {a})', 'type': 'Fused', 'params': {'loss': 0.5}},
+                           {'uid': f'patch2 ({b} -> {a})', 'type': 'Fused', 'params': {'loss': 0.5}}]
+        for c in js['connections']:
+            if c['from_node'] == f'fiber ({b} -> {a})' and c['to_node'] == f'roadm {a}':
+                c['to_node'] = f'patch ({b} -> {a})'
+        js['connections'] += [{'from_node': f'patch ({b} -> {a})', 'to_node': f'patch2 ({b} -> {a})'},
+                              {'from_node': f'patch2 ({b} -> {a})', 'to_node': f'roadm {a}'}]
         self.net, _, _ = designed(js, self.eq)
         self.nodes = node_map(self.net)
         self.nmin, self.nmax, self.idxmin, self.idxmax = nmin, nmax, idxmin, idxmax
@@ -407,6 +416,17 @@ def run_b3(chk):
         data, kinds = random_services(net, rng, 10, f'm{b}-')
         jobs.append(record_planning(f'multiband:seeded-batch-{b}', net, eq, loadable(data, kinds, eq, chk), chk,
                                     policy='last_fit' if b % 2 == 1 else 'first_fit'))
+    # amplifier band edges off the 6.25 GHz grid (191.2781 - 196.1230 THz): the slots cut by an edge are outside the band
+    for b in range(1 if chk.tier == 'quick' else 4):
+        from gnpy.tools.json_io import _equipment_from_json, DEFAULT_EXTRA_CONFIG
+        eqj = load_json(EX / 'eqpt_config.json')
+        for amp in eqj['Edfa']:
+            if amp.get('type_def') in ('variable_gain', 'fixed_gain'):
+                amp['f_min'], amp['f_max'] = 191.2781e12 + b * 1.1e9, 196.1230e12 - b * 0.7e9
+        eq = _equipment_from_json(copy.deepcopy(eqj), DEFAULT_EXTRA_CONFIG)
+        net = designed_network(eq, load_network(EX / 'meshTopologyExampleV2.json', eq))[0]
+        data, kinds = random_services(net, rng, 10, f'g{b}-')
+        jobs.append(record_planning(f'meshV2-offgrid-amps:seeded-batch-{b}', net, eq, loadable(data, kinds, eq, chk), chk))
     traces_ok = judge_traces(jobs, chk)
     chk.cov['b3_traces'] = len(jobs)
     chk.cov['b3_requests'] = sum(len(t['ev']) for t in jobs)
